@@ -11,6 +11,9 @@
 //!   exe <conn> <rs|rd|ps|pd> <CMD> <args..> => <reply|?>  pending head of <conn> runs   (action)
 //!   commit <S|D>                                SETCLUSTER with the committed metadata  (action)
 //!   tick                                        only lets (virtual) time pass           (action)
+//!   (replay files only) try <conn>              exe <conn> if it has a pending command, else nothing
+//!   flt <conn> <rs|rd> <CMD> <args..>           FAULT: the connection <conn> (a Redis client of the migrating task)
+//!                                               is reset at its pending head command: nothing is executed (action)
 //!   ret <id> <reply>                            client response                         (observation)
 //!   st <S|D> <STATE>                            migration state of the local task       (observation)
 //!   fin <key> <src|-> <dst|->                   store contents at the end of the case   (observation)
@@ -207,6 +210,7 @@ impl Cfg {
 enum Action {
     Inv { id: u64, proxy: char, cmd: String, key: String, val: Option<String> },
     Exe { conn: String },
+    Fault { conn: String },
     Commit { proxy: char },
     Tick,
 }
@@ -240,6 +244,9 @@ struct Case {
     last_dump: BTreeMap<String, String>,
     /// (key, time) of RESTOREs waiting at a gate when a deleting command ran directly at dst after the commit
     f03b_window: std::collections::BTreeSet<String>,
+    faults: u64,
+    /// in-range keys found on the source when the scan declared itself finished
+    left_at_scan_end: Vec<String>,
 }
 
 async fn settle(world: &Shared) {
@@ -285,7 +292,7 @@ impl Case {
             world, s, d, cfg: cfg.clone(), clock: 0, ops: vec![],
             st: ["PRE_CHECK".to_string(), "PRE_CHECK".to_string()],
             committed: [false, false], lines: vec![], all_lines: vec![], dump_out: Default::default(),
-            pttl_missing: Default::default(), last_dump: Default::default(), f03b_window: Default::default(),
+            pttl_missing: Default::default(), last_dump: Default::default(), f03b_window: Default::default(), faults: 0, left_at_scan_end: vec![],
         };
         // the coordinator sets the destination first
         let rd = submit(&c.d, setcluster_words(false, false, cfg.scan).iter().map(|w| w.as_bytes().to_vec()).collect(), 1).await;
@@ -317,10 +324,37 @@ impl Case {
             let info = submit(self.proxy(*p), to_args(&["UMCTL", "INFO"]), 2).await;
             let st = state_of(&info);
             if st != self.st[i] {
+                if i == 0 && st == "FINAL_SWITCH" {
+                    // the scan is over: no key of the range may be left on the source (it would be unreachable
+                    // after the commit)
+                    if let Ok(w) = self.world.lock() {
+                        for k in &self.cfg.keys_in {
+                            if w.store[0].contains_key(k.as_bytes()) {
+                                self.left_at_scan_end.push(k.clone());
+                            }
+                        }
+                    }
+                }
                 self.st[i] = st.clone();
                 self.log(format!("st {} {}", p, st));
             }
         }
+    }
+
+    /// connections whose head command is a RESTORE that is not the first command of its pipeline: an earlier
+    /// RESTORE of the same pipeline has been executed, a reset would make the task re-send it (at-least-once
+    /// RESTORE, answered BUSYKEY) — not part of the fault plan / model
+    fn resend_heads(&self) -> Vec<String> {
+        self.world
+            .lock()
+            .map(|w| {
+                w.conns
+                    .iter()
+                    .filter(|c| c.pending.front().map(|p| p.pos > 0 && p.args.first().map(|a| a.eq_ignore_ascii_case(b"RESTORE")).unwrap_or(false)).unwrap_or(false))
+                    .map(|c| c.label.clone())
+                    .collect()
+            })
+            .unwrap_or_default()
     }
 
     /// (label, upper-cased name of the head command) of every connection with a pending command
@@ -453,6 +487,25 @@ impl Case {
                     self.log(format!("exe {} {} {} => {}", conn, target.code(), short, rep));
                 }
             }
+            Action::Fault { conn } => {
+                // the connection is reset before its head command is executed: every command waiting on it fails
+                let dropped = {
+                    let mut w = match self.world.lock() { Ok(w) => w, Err(_) => return false };
+                    let idx = match w.conn_by_label(conn) { Some(i) => i, None => return false };
+                    if w.conns[idx].kind != 'x' || !w.conns[idx].target.is_redis() || w.conns[idx].pending.is_empty() {
+                        return false;
+                    }
+                    let target = w.conns[idx].target;
+                    let all: Vec<Pending> = w.conns[idx].pending.drain(..).collect();
+                    w.events += 1;
+                    (target, all)
+                };
+                let (target, all) = dropped;
+                let words: Vec<String> = all[0].args.iter().map(|a| String::from_utf8_lossy(a).to_string()).collect();
+                self.log(format!("flt {} {} {}", conn, target.code(), words.join(" ")));
+                self.faults += 1;
+                drop(all); // dropping the reply senders = connection error at the client
+            }
             Action::Commit { proxy } => {
                 let i = if *proxy == 'S' { 0 } else { 1 };
                 let words = setcluster_words(*proxy == 'S', true, self.cfg.scan);
@@ -578,6 +631,10 @@ fn check_case(c: &Case, complete: bool, st: &mut Stats, case_no: u64) {
                 st.oracle_failure(case_no, &format!("key {}: still on the source after the commit", k), finding, replay.clone());
             }
         }
+        if inside && c.left_at_scan_end.contains(k) {
+            st.count("oracle.scan_finished_with_key_on_source");
+            st.oracle_failure(case_no, &format!("key {}: the scan finished (FINAL_SWITCH) while the key was still on the source", k), "", replay.clone());
+        }
         if !inside && val(1, k).is_some() {
             st.oracle_failure(case_no, &format!("key {} outside the range appeared on the destination", k), "", replay.clone());
         }
@@ -601,6 +658,9 @@ async fn run_generated(seed_rng: &mut Rng, s: &mut Streams, ins: &[String], outs
     // anything else can run
     let hold_restore = g.rng.chance(1, 4);
     let hold_srcdel = g.rng.chance(1, 6);
+    // fault plan: up to two resets of a Redis connection of the migrating task (scan loop / UMSYNC fast path)
+    let mut fault_budget: u64 = if g.rng.chance(1, 3) { 1 + g.rng.below(2) } else { 0 };
+    if fault_budget > 0 { s.stats.count("gen.flavour.faults"); }
     if hold_restore { s.stats.count("gen.flavour.hold_restore"); }
     if hold_srcdel { s.stats.count("gen.flavour.hold_srcdel"); }
     let mut starve: Option<String> = None;
@@ -657,6 +717,19 @@ async fn run_generated(seed_rng: &mut Rng, s: &mut Streams, ins: &[String], outs
         for p in &can_commit {
             choices.push((3, Action::Commit { proxy: *p }));
         }
+        if fault_budget > 0 {
+            let resend = c.resend_heads();
+            for (label, head) in &heads {
+                if resend.contains(label) {
+                    continue;
+                }
+                // UMSYNC fast-path clients are the pooled ones (index >= 1); the scan loop's own are index 0
+                let w = if !label.starts_with("Sx-r") { 0 } else if label.ends_with("-0") { 1 } else { 3 };
+                if w > 0 && ["PTTL", "DUMP", "RESTORE", "DEL"].contains(&head.as_str()) {
+                    choices.push((w, Action::Fault { conn: label.clone() }));
+                }
+            }
+        }
         if choices.is_empty() {
             if starve.is_some() {
                 starve = None;
@@ -703,6 +776,10 @@ async fn run_generated(seed_rng: &mut Rng, s: &mut Streams, ins: &[String], outs
             starve = if starve.is_some() { None } else { pend.first().cloned() };
             if starve.is_some() { s.stats.count("gen.starve_conn"); }
         }
+        if let Action::Fault { .. } = &chosen {
+            fault_budget -= 1;
+            s.stats.count("gen.fault");
+        }
         let before_rets = c.ops.iter().filter(|o| o.ret.is_some()).count();
         if !c.act(&chosen).await {
             s.stats.count("out.action_refused");
@@ -711,6 +788,16 @@ async fn run_generated(seed_rng: &mut Rng, s: &mut Streams, ins: &[String], outs
         if c.ops.iter().filter(|o| o.ret.is_some()).count() > before_rets {
             for o in c.ops.iter() {
                 if let Some((t, r)) = &o.ret {
+                    if r.starts_with('-') && r != "-MOVED" && *t + 3 > c.clock {
+                        // the command failed: the client retries it at the same proxy
+                        let words: Vec<&str> = o.text.split(' ').collect();
+                        let same = words.get(2).and_then(|p| p.chars().next()).unwrap_or('D');
+                        let entry = (same, words.get(3).unwrap_or(&"GET").to_string(), o.key.clone(), None);
+                        if pending_redirects.len() < 4 && !pending_redirects.iter().any(|e| e.2 == entry.2 && e.1 == entry.1) {
+                            pending_redirects.push(entry);
+                            s.stats.count("gen.retry_after_error");
+                        }
+                    }
                     if r == "-MOVED" && *t == c.clock || (r == "-MOVED" && *t + 3 > c.clock) {
                         let words: Vec<&str> = o.text.split(' ').collect();
                         let other = if words.get(2) == Some(&"S") { 'D' } else { 'S' };
@@ -792,13 +879,22 @@ async fn run_replay(lines: &[String], s: &mut Streams) {
                     val: w.get(5).map(|v| v.to_string()),
                 }),
                 Some("exe") if w.len() >= 2 => Some(Action::Exe { conn: w[1].to_string() }),
+                Some("flt") if w.len() >= 2 => Some(Action::Fault { conn: w[1].to_string() }),
+                // `try <conn>`: like exe, but silently nothing when the connection has no pending command
+                Some("try") if w.len() >= 2 => {
+                    if c.pending_conns().contains(&w[1].to_string()) { Some(Action::Exe { conn: w[1].to_string() }) } else { None }
+                }
                 Some("commit") if w.len() >= 2 => Some(Action::Commit { proxy: w[1].chars().next().unwrap_or('S') }),
                 Some("tick") => Some(Action::Tick),
                 Some("drain") => {
-                    // run a fixed fair schedule to the end: lowest-labelled pending connection first
-                    for _ in 0..400 {
+                    // run a fixed fair schedule to the end: the pending connection served least recently first
+                    let mut last_used: BTreeMap<String, u64> = BTreeMap::new();
+                    for round in 0..400u64 {
                         let mut pend = c.pending_conns();
-                        pend.sort();
+                        pend.sort_by_key(|p| (last_used.get(p).copied().unwrap_or(0), p.clone()));
+                        if let Some(p) = pend.first() {
+                            last_used.insert(p.clone(), round + 1);
+                        }
                         let s_ready = c.st[0] == "SWITCH_COMMITTED" || c.committed[0];
                         let d_ready = c.st[1] == "SWITCH_COMMITTED" || c.committed[1];
                         let a = if let Some(p) = pend.first() {
